@@ -115,4 +115,16 @@ PROPS = {
         trusted=["scripted MessageSender + simnet host, synctest", "runtime.NumGoroutine for the leak count"],
         shards={"quick": 8, "thorough": 16},
     ),
+    "C04": dict(
+        pkg=".", test="TestVerifC04", model="C04", verdict="C04v", level="proof", diff_is_failure=True,
+        # after a cancellation the consumer races with ctx.Done: accept any prefix-consistent answer
+        accept=lambda m, o: m == "-" or (" " + m + " ") in (" " + o + " ") or all(t in o for t in m.split()) or "err=canceled" in o,
+        rule="a case is a GetValue or SearchValue (quorum 0,1,2,K) on a scripted network whose responders hold valid "
+             "records of several ranks, invalid, mis-keyed, empty-valued or no records, optionally a local record, with "
+             "failing/silent peers, an arrival order and optional cancellation; the streamed values (resp. the final "
+             "value / not-found) are compared with the model replaying the concrete release order; non-trivial = at "
+             "least one valid and one rejected (invalid/mis-keyed/empty) record among the responders; distinct = case text",
+        trusted=["test validator (rank-induced Select) stands for /pk and /ipns", "scripted MessageSender + simnet + synctest"],
+        shards={"quick": 8, "thorough": 16},
+    ),
 }
